@@ -329,7 +329,29 @@ def gen_hist(rng):
             live = max(0, live - 1)
         else:
             ops.append(["n", rng.choice([0, 1, 2, 3, 5])])
-    return {"kind": "hist", "np": np_, "ops": ops}
+    # the same watcher object spawns every generation: its cmd / args templates carry $(circus.wid) — as a string or
+    # as a list — and every worker must get its *own* id in them (the templates are not consumed by the first spawn)
+    style = rng.choice(["list", "list", "str", "cmd"])
+    return {"kind": "hist", "np": np_, "ops": ops, "argstyle": style}
+
+
+def _hist_templates(style):
+    if style == "list":
+        return "prog --id $(circus.wid)", ["--w", "$(circus.wid)", "((circus.wid))x", "lit eral"]
+    if style == "str":
+        return "prog --id $(circus.wid)", "--w $(circus.wid) ((circus.wid))x 'lit eral'"
+    if style == "cmd":
+        return "prog --id $(circus.wid) --w ((CIRCUS.WID))", None
+    return "x", None
+
+
+def _hist_expected_argv(style, wid):
+    w = str(wid)
+    if style in ("list", "str"):
+        return ["prog", "--id", w, "--w", w, w + "x", "lit eral"]
+    if style == "cmd":
+        return ["prog", "--id", w, "--w", w]
+    return None
 
 
 def generate(rng, tier):
@@ -531,19 +553,22 @@ def _impl_spawn(case):
 
 def _impl_hist(case):
     with _Patched({}):
-        w = _mk_watcher({"np": case["np"]})
+        cmd, args = _hist_templates(case.get("argstyle"))
+        w = _mk_watcher({"np": case["np"], "cmd": cmd, "args": args})
         answers = []
         for op in case["ops"]:
             if op[0] == "s":
                 before = set(w.processes)
                 live_before = [p.wid for p in w.processes.values()]
+                ncalls = len(_Recorder.calls)
                 try:
                     w.spawn_process()
                 except RuntimeError:
                     answers.append({"wid": None, "live_before": live_before})
                     continue
                 new = [p for pid, p in w.processes.items() if pid not in before]
-                answers.append({"wid": new[0].wid, "live_before": live_before})
+                argv = list(_Recorder.calls[-1][0]) if len(_Recorder.calls) > ncalls else None
+                answers.append({"wid": new[0].wid, "live_before": live_before, "argv": argv})
             elif op[0] == "d":
                 pids = list(w.processes)
                 if op[1] < len(pids):
@@ -874,6 +899,10 @@ def oracle(case, obs):
                 fails.append(_fail("wid-not-unique", "wid %r handed out while %r are live" % (w, live)))
             if not live and w != 1:
                 fails.append(_fail("wid-start", "first wid is %r" % w))
+            exp = _hist_expected_argv(case.get("argstyle"), w)
+            if exp is not None and a.get("argv") is not None and a["argv"] != exp:
+                fails.append(_fail("argv-not-this-workers", "worker with wid %r of a later generation was started with %r, "
+                                                            "its templates give %r" % (w, a["argv"], exp)))
         if len(set(obs["live"])) != len(obs["live"]):
             fails.append(_fail("wid-not-unique", "live wids %r" % obs["live"]))
     return fails[:3]
